@@ -515,7 +515,10 @@ class StmtMixin:
                 self.havoc_obj(st, o, tag)
         for (oid, f) in fields:
             if oid in st.objs and f in st.objs[oid]:
-                st.objs[oid][f] = self.havoc_value(st.objs[oid][f], st, f)
+                cur_ = st.objs[oid][f]
+                if isinstance(cur_, VObj) and cur_.cls in ("ChunkList", "OutFile", "FileWriter", "BitsInfo", "Header"):
+                    continue  # sub-objects keep their identity; their own fields are in the set
+                st.objs[oid][f] = self.havoc_value(cur_, st, f)
 
     def havoc_value(self, v, st, name="v"):
         if isinstance(v, VInt):
@@ -551,6 +554,11 @@ class StmtMixin:
                                     case=self.cur_case))
 
     def check_invs(self, st, spec: LoopSpec, kind, lid, var, line):
+        if kind == "inv-keep":
+            for (label, expr) in spec.end_hints:
+                g_ = self.spec_bool(expr, st)
+                self.oblig(st, f"end-hint#{lid}", g_, line, label=label, cls="H")
+                st.assume(g_)
         for (label, expr) in spec.invariants:
             g = self.spec_bool(expr, st)
             self.oblig(st, f"{kind}#{lid}", g, line, label=label, cls="P")
@@ -584,6 +592,9 @@ class StmtMixin:
             body_st.assume(z3.And(kk >= 0, i == lo + kk * step, i < hi))
         self.assume_invs(body_st, spec)
         self.cover(body_st, f"loop-body#{lid}", line)
+        later = body_st.fork()
+        later.assume(i > lo)
+        self.cover(later, f"loop-body-later#{lid}", line)
         for (label, expr) in spec.body_hints:
             g_ = self.spec_bool(expr, body_st)
             self.oblig(body_st, f"hint#{lid}", g_, line, label=label, cls="H")
@@ -636,6 +647,9 @@ class StmtMixin:
         body0.assume(z3.And(0 <= k, k < seq.n))
         self.assume_invs(body0, spec)
         self.cover(body0, f"loop-body#{lid}", line)
+        later = body0.fork()
+        later.assume(k >= 1)
+        self.cover(later, f"loop-body-later#{lid}", line)
         # an appended last element is executed as its own branch (no if-then-else block values)
         branches = []
         if seq.last is not None:
@@ -713,6 +727,18 @@ class StmtMixin:
         for f in facts:
             st.assume(f)
         xs_object(self, st)
+        # dtype / value range of the unpacked samples follow the input depth (C03 range clause)
+        try:
+            nb_in = smt.conc_int(self.to_int(st.objs[st.objs[gself.oid]["_header"].oid]["nbits"]))
+        except Exception:  # noqa: BLE001
+            nb_in = None
+        if nb_in in (1, 2, 4, 8, 16, 32):
+            st.hmeta[XS_OBJ] = dict(st.hmeta[XS_OBJ], dtype={16: "u2", 32: "f4"}.get(nb_in, "u1"))
+            if nb_in != 32:
+                # range of the unpacked samples (C03 range clause): handed only to the obligations that need it
+                jx = smt.fresh("jx")
+                el_ = z3.Select(st.heap[XS_OBJ], jx)
+                st.ghost["xs_range"] = z3.ForAll([jx], z3.And(el_ >= 0, el_ <= (1 << nb_in) - 1), patterns=[el_])
         st.ghost["gen"] = dict(K=K, boff=boff, bn=bn)
         self.gen_specs = {"bK": K, "boff": boff, "bn": bn}
         names, objs, fields = self.loop_modifies(s.body, st)
@@ -734,11 +760,14 @@ class StmtMixin:
         body_st.assume(z3.Implies(k + 1 < K, boff(k + 1) == boff(k) + bn(k) - S))
         self.assume_invs(body_st, spec)
         self.cover(body_st, f"loop-body#{lid}", line)
+        later = body_st.fork()
+        later.assume(k >= 1)
+        self.cover(later, f"loop-body-later#{lid}", line)
         base = smt.som((start + boff(k)) * nchans)
         blen = smt.som(bn(k) * nchans)
         if getattr(self.contract, "gen_copy", False):
             jj = z3.Int("j!blk")
-            bobj = self.new_obj(body_st, "real", None, "block",
+            bobj = self.new_obj(body_st, "real", body_st.hmeta[XS_OBJ].get("dtype"), "block",
                                 contents=z3.Lambda([jj], z3.Select(body_st.heap[XS_OBJ], base + jj)))
             data = VArr(bobj, z3.IntVal(0), z3.IntVal(1), blen)
         else:
